@@ -1,0 +1,24 @@
+//go:build verif
+
+// Contracts for package messagesfactory, read by /verif/govc (comment-only: no declarations, no effect on any build).
+// Marked `trusted` while their bodies (membuffers builders) are verified separately under C20: a message the factory
+// builds carries exactly the requested fields, this node's id, and a signature that verifies under this node's key
+// (A-KM-SIGN: what SignConsensusMessage produces, VerifyConsensusMessage accepts for the same height and bytes).
+
+package messagesfactory
+
+//@ func (*MessageFactory).CreateCommitMessage
+//@   trusted
+//@   ensures result != nil && result.content != nil
+//@   ensures result.content.SignedHeader().MessageType() == protocol.LEAN_HELIX_COMMIT && result.content.SignedHeader().InstanceId() == f.instanceId
+//@   ensures result.content.SignedHeader().BlockHeight() == blockHeight && result.content.SignedHeader().View() == view && result.content.SignedHeader().BlockHash() == blockHash
+//@   ensures result.content.Sender().MemberId() == f.memberId
+//@   ensures VerifiedMsg(f.keyManager, blockHeight, result.content.SignedHeader().Raw(), f.memberId, result.content.Sender().Signature())
+
+//@ func (*MessageFactory).CreatePrepareMessage
+//@   trusted
+//@   ensures result != nil && result.content != nil
+//@   ensures result.content.SignedHeader().MessageType() == protocol.LEAN_HELIX_PREPARE && result.content.SignedHeader().InstanceId() == f.instanceId
+//@   ensures result.content.SignedHeader().BlockHeight() == blockHeight && result.content.SignedHeader().View() == view && result.content.SignedHeader().BlockHash() == blockHash
+//@   ensures result.content.Sender().MemberId() == f.memberId
+//@   ensures VerifiedMsg(f.keyManager, blockHeight, result.content.SignedHeader().Raw(), f.memberId, result.content.Sender().Signature())
